@@ -1,6 +1,280 @@
-(* C08 placeholder while the model is validated; replaced below *)
-From Coq Require Import ZArith List.
-From Pymoto Require Import Base.Num Model.Grid Model.Assembly.
+(* C08 — finite-element assembly equals the scaled element sum and keeps its physics.
+   Statements only; every proof is `exact <lemma>`; Print Assumptions under each.
+
+   Reading.  The module hands (values, (rows, cols)) to the scipy constructor, which sums duplicate index pairs;
+   `asm_matrix g Ke bc bcdiagval cst x` is that triple list followed by the triples of add_constant (`mat += C`),
+   `zentry T i j` / `SparseLin.dense T n n` is the matrix it denotes.  `asm_spec` is the property text:
+       A[i][j] = [i, j not constrained] * sum_e x_e * scatter(Ke, dofconn_e)[i][j]
+                 + [i = j] * bcdiagval * #{occurrences of i in bc}  +  C[i][j]
+   (the constant is added after the constrained rows/columns are fixed: what code and docstring do).
+   All theorems hold for every grid size, element size, material data and scaling vector; arithmetic is exact (R).
+   s3 stands for the number np.sqrt(3) of the quadrature loops: the kinematic identities hold at EVERY sampling
+   point, so the physics theorems hold for any value of s3 (in particular the true one). *)
+From Coq Require Import ZArith List Reals.
+From Pymoto Require Import Base.Num Base.SparseLin Base.FEMat Model.Grid Model.Shape Model.ElemMat Model.Assembly.
+From Pymoto Require Import Proofs.GridP Proofs.ShapeP Proofs.ElemMatP Proofs.AssemblyP.
 Import ListNotations.
-Example C08_nonvacuous : asm_ndof {| nelx := 1; nely := 1; nelz := 0 |} [[1;2;3;4]]%Z = 1%Z.
-Proof. reflexivity. Qed.
+Open Scope R_scope.
+
+(* ------------------------------------------------------------------ A = sum_e x_e K_e scattered (+ bc, + constant) *)
+Theorem C08_entry_formula :
+  forall g (elmat : list (list R)) bc (bcdiagval : R) cst x i j,
+    let ndof := asm_ndof g elmat in
+    let N := Z.to_nat (asm_n g ndof) in
+    asm_wf g elmat bc cst x -> (0 <= i < asm_n g ndof)%Z -> (0 <= j < asm_n g ndof)%Z ->
+    nth (Z.to_nat j) (nth (Z.to_nat i) (dense (to_triples (asm_matrix g elmat bc bcdiagval cst x)) N N) []) 0
+    = asm_spec g elmat bc bcdiagval cst x i j.
+Proof. exact (asm_dense_entry RthR). Qed.
+Print Assumptions C08_entry_formula.
+
+(* rows and columns of constrained dofs are zero, with the chosen value on the diagonal (bc without repetitions);
+   free rows/columns are unchanged *)
+Theorem C08_entry_constrained_row :
+  forall g (elmat : list (list R)) bcl bcdiagval cst x i j, NoDup bcl -> isin i bcl = true ->
+    asm_spec g elmat (Some bcl) bcdiagval cst x i j = (if Z.eqb i j then bcdiagval else 0) + zentry cst i j.
+Proof. exact asm_spec_constrained. Qed.
+Print Assumptions C08_entry_constrained_row.
+
+Theorem C08_entry_constrained_col :
+  forall g (elmat : list (list R)) bcl bcdiagval cst x i j, NoDup bcl -> isin j bcl = true ->
+    asm_spec g elmat (Some bcl) bcdiagval cst x i j = (if Z.eqb i j then bcdiagval else 0) + zentry cst i j.
+Proof. exact asm_spec_constrained_col. Qed.
+Print Assumptions C08_entry_constrained_col.
+
+Theorem C08_entry_free :
+  forall g (elmat : list (list R)) bcl bcdiagval cst x i j, NoDup bcl -> isin i bcl = false -> isin j bcl = false ->
+    asm_spec g elmat (Some bcl) bcdiagval cst x i j = asm_spec g elmat None bcdiagval cst x i j.
+Proof. exact asm_spec_free. Qed.
+Print Assumptions C08_entry_free.
+
+(* every index handed to the sparse constructor lies inside the matrix *)
+Theorem C08_indices_in_range :
+  forall g (elmat : list (list R)) bc bcdiagval cst x,
+    let ndof := asm_ndof g elmat in
+    wf g -> (0 <= ndof)%Z -> bc_ok g ndof bc -> zbounded (asm_n g ndof) cst ->
+    zbounded (asm_n g ndof) (asm_matrix g elmat bc bcdiagval cst x).
+Proof. exact asm_zbounded. Qed.
+Print Assumptions C08_indices_in_range.
+
+(* ------------------------------------------------------------------ symmetry *)
+Theorem C08_symmetric :
+  forall g (elmat : list (list R)) bc bcdiagval cst x i j,
+    asm_wf g elmat bc cst x -> msym elmat -> (forall p q, zentry cst p q = zentry cst q p) ->
+    zentry (asm_matrix g elmat bc bcdiagval cst x) i j = zentry (asm_matrix g elmat bc bcdiagval cst x) j i.
+Proof. exact (asm_symmetric RthR). Qed.
+Print Assumptions C08_symmetric.
+
+Theorem C08_stiffness_symmetric_2d :
+  forall g (s3 hx hy hz E nu : R) mode bc (bcd : R) cst x i j,
+    wf g -> nelz g = 0%Z -> (mode = 0 \/ mode = 1)%Z -> length x = Z.to_nat (nel g) -> bc_ok g 2 bc ->
+    zbounded (asm_n g 2) cst -> (forall p q, zentry cst p q = zentry cst q p) ->
+    let A := asm_matrix g (stiffness_element s3 2 [hx; hy; hz] E nu mode) bc bcd cst x in
+    zentry A i j = zentry A j i.
+Proof. exact stiffness2_global_symmetric. Qed.
+Print Assumptions C08_stiffness_symmetric_2d.
+
+Theorem C08_stiffness_symmetric_3d :
+  forall g (s3 hx hy hz E nu : R) mode bc (bcd : R) cst x i j,
+    wf g -> nelz g <> 0%Z -> length x = Z.to_nat (nel g) -> bc_ok g 3 bc ->
+    zbounded (asm_n g 3) cst -> (forall p q, zentry cst p q = zentry cst q p) ->
+    let A := asm_matrix g (stiffness_element s3 3 [hx; hy; hz] E nu mode) bc bcd cst x in
+    zentry A i j = zentry A j i.
+Proof. exact stiffness3_global_symmetric. Qed.
+Print Assumptions C08_stiffness_symmetric_3d.
+
+Theorem C08_mass_elem_symmetric : forall (s3 : R) d h mp ndof, (d = 2 \/ d = 3)%nat -> msym (mass_element s3 d h mp ndof).
+Proof. exact mass_elem_sym. Qed.
+Print Assumptions C08_mass_elem_symmetric.
+
+Theorem C08_poisson_elem_symmetric : forall (s3 : R) d h mp, (d = 2 \/ d = 3)%nat -> msym (poisson_element s3 d h mp).
+Proof. exact poisson_elem_sym. Qed.
+Print Assumptions C08_poisson_elem_symmetric.
+
+(* ------------------------------------------------------------------ u^T A u = sum_e x_e u_e^T K_e u_e ;  PSD *)
+Theorem C08_quadratic_form :
+  forall g (elmat : list (list R)) (bcd : R) x w u,
+    let ndof := asm_ndof g elmat in
+    let m := Z.to_nat (elemnodes g * ndof) in
+    let N := Z.to_nat (asm_n g ndof) in
+    wf g -> (0 <= ndof)%Z -> mshape m m elmat -> length x = Z.to_nat (nel g) -> length w = N -> length u = N ->
+    dot w (apply (to_triples (asm_ztriples g elmat None bcd x)) N u) =
+    nsum (map (fun p => snd p * bil elmat (gatherZ w (fst p)) (gatherZ u (fst p))) (combine (dofconn_all g ndof) x)).
+Proof. exact (asm_bilinear RthR). Qed.
+Print Assumptions C08_quadratic_form.
+
+Theorem C08_psd :
+  forall g (elmat : list (list R)) bcd x u,
+    let ndof := asm_ndof g elmat in
+    let N := Z.to_nat (asm_n g ndof) in
+    asm_wf g elmat None [] x -> length u = N ->
+    (forall v, 0 <= quad elmat v) -> Forall (fun xe => 0 <= xe) x ->
+    0 <= dot u (apply (to_triples (asm_ztriples g elmat None bcd x)) N u).
+Proof. exact asm_psd. Qed.
+Print Assumptions C08_psd.
+
+(* element matrices: B^T D B summed over the Gauss points is symmetric PSD for E >= 0 and admissible nu *)
+Theorem C08_stiffness_elem_symm_psd_2d :
+  forall (s3 hx hy hz E nu : R) mode, (mode = 0 \/ mode = 1)%Z ->
+    msym (stiffness_element s3 2 [hx; hy; hz] E nu mode) /\
+    (0 <= hx -> 0 <= hy -> 0 <= hz -> 0 <= E -> (mode = 0%Z -> -1 < nu < 1/2) -> (mode = 1%Z -> -1 < nu < 1) ->
+     forall v, 0 <= quad (stiffness_element s3 2 [hx; hy; hz] E nu mode) v).
+Proof.
+  intros s3 hx hy hz E nu mode Hm.
+  exact (conj (stiffness2_sym s3 hx hy hz E nu mode Hm)
+              (fun a b c d e f v => stiffness2_psd s3 hx hy hz E nu mode Hm v a b c d e f)).
+Qed.
+Print Assumptions C08_stiffness_elem_symm_psd_2d.
+
+Theorem C08_stiffness_elem_symm_psd_3d :
+  forall (s3 hx hy hz E nu : R) mode,
+    msym (stiffness_element s3 3 [hx; hy; hz] E nu mode) /\
+    (0 <= hx -> 0 <= hy -> 0 <= hz -> 0 <= E -> -1 < nu < 1/2 ->
+     forall v, 0 <= quad (stiffness_element s3 3 [hx; hy; hz] E nu mode) v).
+Proof.
+  intros s3 hx hy hz E nu mode.
+  exact (conj (stiffness3_sym s3 hx hy hz E nu mode)
+              (fun a b c d e v => stiffness3_psd s3 hx hy hz E nu mode v a b c d e)).
+Qed.
+Print Assumptions C08_stiffness_elem_symm_psd_3d.
+
+Theorem C08_stiffness_psd_2d :
+  forall g (s3 hx hy hz E nu : R) mode (bcd : R) x u,
+    wf g -> nelz g = 0%Z -> (mode = 0 \/ mode = 1)%Z -> length x = Z.to_nat (nel g) ->
+    0 <= hx -> 0 <= hy -> 0 <= hz -> 0 <= E -> (mode = 0%Z -> -1 < nu < 1/2) -> (mode = 1%Z -> -1 < nu < 1) ->
+    Forall (fun xe => 0 <= xe) x -> length u = Z.to_nat (asm_n g 2) ->
+    0 <= dot u (apply (to_triples (asm_ztriples g (stiffness_element s3 2 [hx; hy; hz] E nu mode) None bcd x))
+                      (Z.to_nat (asm_n g 2)) u).
+Proof. exact stiffness2_global_psd. Qed.
+Print Assumptions C08_stiffness_psd_2d.
+
+Theorem C08_stiffness_psd_3d :
+  forall g (s3 hx hy hz E nu : R) mode (bcd : R) x u,
+    wf g -> nelz g <> 0%Z -> length x = Z.to_nat (nel g) ->
+    0 <= hx -> 0 <= hy -> 0 <= hz -> 0 <= E -> -1 < nu < 1/2 ->
+    Forall (fun xe => 0 <= xe) x -> length u = Z.to_nat (asm_n g 3) ->
+    0 <= dot u (apply (to_triples (asm_ztriples g (stiffness_element s3 3 [hx; hy; hz] E nu mode) None bcd x))
+                      (Z.to_nat (asm_n g 3)) u).
+Proof. exact stiffness3_global_psd. Qed.
+Print Assumptions C08_stiffness_psd_3d.
+
+Theorem C08_mass_elem_psd :
+  forall (s3 : R) d hx hy hz mp ndof v, (d = 2 \/ d = 3)%nat ->
+    0 <= hx -> 0 <= hy -> 0 <= hz -> 0 <= mp -> 0 <= quad (mass_element s3 d [hx; hy; hz] mp ndof) v.
+Proof. exact mass_elem_psd. Qed.
+Print Assumptions C08_mass_elem_psd.
+
+Theorem C08_poisson_elem_psd :
+  forall (s3 : R) d hx hy hz mp v, (d = 2 \/ d = 3)%nat ->
+    0 <= hx -> 0 <= hy -> 0 <= hz -> 0 <= mp -> 0 <= quad (poisson_element s3 d [hx; hy; hz] mp) v.
+Proof. exact poisson_elem_psd. Qed.
+Print Assumptions C08_poisson_elem_psd.
+
+(* ------------------------------------------------------------------ rigid-body motions *)
+(* at EVERY point p of the element: B(p) . r = 0 for translation t + infinitesimal rotation about any centre c *)
+Theorem C08_B_rigid_2d :
+  forall hx hy hz px py pz tx ty om cx cy, hx <> 0 -> hy <> 0 ->
+    mvmul (B_at 2 [hx; hy; hz] [px; py; pz]) (rigid2 [hx; hy; hz] tx ty om cx cy) = [0; 0; 0].
+Proof. exact B_rigid2. Qed.
+Print Assumptions C08_B_rigid_2d.
+
+Theorem C08_B_rigid_3d :
+  forall hx hy hz px py pz tx ty tz wx wy wz cx cy cz, hx <> 0 -> hy <> 0 -> hz <> 0 ->
+    mvmul (B_at 3 [hx; hy; hz] [px; py; pz]) (rigid3 [hx; hy; hz] tx ty tz wx wy wz cx cy cz) = [0; 0; 0; 0; 0; 0].
+Proof. exact B_rigid3. Qed.
+Print Assumptions C08_B_rigid_3d.
+
+(* K r = 0 on every grid, for every scaling vector: r(n) = t + om * (-y_n, x_n), (x_n, y_n) = get_node_position(n) *)
+Theorem C08_stiffness_rigid_null_2d :
+  forall g (s3 hx hy hz : R), wf g -> nelz g = 0%Z -> hx <> 0 -> hy <> 0 ->
+  forall E nu mode (bcd : R) x tx ty om, (mode = 0 \/ mode = 1)%Z ->
+    let Ke := stiffness_element s3 2 [hx; hy; hz] E nu mode in
+    let N := Z.to_nat (asm_n g 2) in
+    apply (to_triples (asm_ztriples g Ke None bcd x)) N (nodal_field g 2 (rigid_field2 g hx hy tx ty om)) = vzero N.
+Proof. exact stiffness2_global_rigid_null. Qed.
+Print Assumptions C08_stiffness_rigid_null_2d.
+
+(* r(n) = t + w x pos(n): the 6 rigid modes in 3-D *)
+Theorem C08_stiffness_rigid_null_3d :
+  forall g (s3 hx hy hz : R), wf g -> nelz g <> 0%Z -> hx <> 0 -> hy <> 0 -> hz <> 0 ->
+  forall E nu mode (bcd : R) x tx ty tz wx wy wz,
+    let Ke := stiffness_element s3 3 [hx; hy; hz] E nu mode in
+    let N := Z.to_nat (asm_n g 3) in
+    apply (to_triples (asm_ztriples g Ke None bcd x)) N (nodal_field g 3 (rigid_field3 g hx hy hz tx ty tz wx wy wz)) = vzero N.
+Proof. exact stiffness3_global_rigid_null. Qed.
+Print Assumptions C08_stiffness_rigid_null_3d.
+
+(* ------------------------------------------------------------------ mass *)
+(* 1_k^T M 1_k = rho * V_e * sum(x) for every direction k < ndof (2-D: V_e includes the thickness hz) *)
+Theorem C08_mass_total_2d :
+  forall g (s3 hx hy hz : R), wf g -> nelz g = 0%Z -> hx <> 0 -> hy <> 0 ->
+  forall mp nd k (bcd : R) x, (1 <= nd)%nat -> (k < nd)%nat -> length x = Z.to_nat (nel g) ->
+    let Me := mass_element s3 2 [hx; hy; hz] mp nd in
+    let N := Z.to_nat (asm_n g (Z.of_nat nd)) in
+    let one_k := nodal_field g (Z.of_nat nd) (dir_field (Z.of_nat k)) in
+    dot one_k (apply (to_triples (asm_ztriples g Me None bcd x)) N one_k) = mp * (hx * hy * hz) * nsum x.
+Proof. exact mass2_global_total. Qed.
+Print Assumptions C08_mass_total_2d.
+
+Theorem C08_mass_total_3d :
+  forall g (s3 hx hy hz : R), wf g -> nelz g <> 0%Z -> hx <> 0 -> hy <> 0 -> hz <> 0 ->
+  forall mp nd k (bcd : R) x, (1 <= nd)%nat -> (k < nd)%nat -> length x = Z.to_nat (nel g) ->
+    let Me := mass_element s3 3 [hx; hy; hz] mp nd in
+    let N := Z.to_nat (asm_n g (Z.of_nat nd)) in
+    let one_k := nodal_field g (Z.of_nat nd) (dir_field (Z.of_nat k)) in
+    dot one_k (apply (to_triples (asm_ztriples g Me None bcd x)) N one_k) = mp * (hx * hy * hz) * nsum x.
+Proof. exact mass3_global_total. Qed.
+Print Assumptions C08_mass_total_3d.
+
+(* ------------------------------------------------------------------ Poisson *)
+Theorem C08_poisson_constants_2d :
+  forall g (s3 hx hy hz : R), wf g -> nelz g = 0%Z -> hx <> 0 -> hy <> 0 ->
+  forall mp (bcd : R) x c0,
+    let Pe := poisson_element s3 2 [hx; hy; hz] mp in
+    let N := Z.to_nat (asm_n g 1) in
+    apply (to_triples (asm_ztriples g Pe None bcd x)) N (nodal_field g 1 (lin_field2 g hx hy c0 0 0)) = vzero N.
+Proof. exact poisson2_global_constants. Qed.
+Print Assumptions C08_poisson_constants_2d.
+
+Theorem C08_poisson_constants_3d :
+  forall g (s3 hx hy hz : R), wf g -> nelz g <> 0%Z -> hx <> 0 -> hy <> 0 -> hz <> 0 ->
+  forall mp (bcd : R) x c0,
+    let Pe := poisson_element s3 3 [hx; hy; hz] mp in
+    let N := Z.to_nat (asm_n g 1) in
+    apply (to_triples (asm_ztriples g Pe None bcd x)) N (nodal_field g 1 (lin_field3 g hx hy hz c0 0 0 0)) = vzero N.
+Proof. exact poisson3_global_constants. Qed.
+Print Assumptions C08_poisson_constants_3d.
+
+(* u(n) = c0 + g . pos(n):  u^T P u = k * V_e * |g|^2 * sum(x) *)
+Theorem C08_poisson_linear_energy_2d :
+  forall g (s3 hx hy hz : R), wf g -> nelz g = 0%Z -> hx <> 0 -> hy <> 0 ->
+  forall mp (bcd : R) x c0 gx gy, length x = Z.to_nat (nel g) ->
+    let Pe := poisson_element s3 2 [hx; hy; hz] mp in
+    let N := Z.to_nat (asm_n g 1) in
+    let u := nodal_field g 1 (lin_field2 g hx hy c0 gx gy) in
+    dot u (apply (to_triples (asm_ztriples g Pe None bcd x)) N u) = mp * (hx * hy * hz) * (gx * gx + gy * gy) * nsum x.
+Proof. exact poisson2_global_linear_energy. Qed.
+Print Assumptions C08_poisson_linear_energy_2d.
+
+Theorem C08_poisson_linear_energy_3d :
+  forall g (s3 hx hy hz : R), wf g -> nelz g <> 0%Z -> hx <> 0 -> hy <> 0 -> hz <> 0 ->
+  forall mp (bcd : R) x c0 gx gy gz, length x = Z.to_nat (nel g) ->
+    let Pe := poisson_element s3 3 [hx; hy; hz] mp in
+    let N := Z.to_nat (asm_n g 1) in
+    let u := nodal_field g 1 (lin_field3 g hx hy hz c0 gx gy gz) in
+    dot u (apply (to_triples (asm_ztriples g Pe None bcd x)) N u)
+    = mp * (hx * hy * hz) * (gx * gx + gy * gy + gz * gz) * nsum x.
+Proof. exact poisson3_global_linear_energy. Qed.
+Print Assumptions C08_poisson_linear_energy_3d.
+
+(* ------------------------------------------------------------------ non-vacuity *)
+(* a concrete 2x1 grid, 4x4 integer element matrix, one constrained dof, a constant: the hypotheses of the entry
+   formula hold and both sides evaluate to the same non-trivial numbers *)
+Example C08_nonvacuous :
+  let g := {| nelx := 2; nely := 1; nelz := 0 |} in
+  let Ke : list (list Z) := [[4; -1; -2; -1]; [-1; 4; -1; -2]; [-2; -1; 4; -1]; [-1; -2; -1; 4]]%Z in
+  let T := asm_matrix g Ke (Some [1%Z]) 7%Z [(0, 2, 5)%Z] [2; 3]%Z in
+  (asm_ndof g Ke = 1%Z /\ Z.eqb (asm_status g Ke (Some [1%Z]) [2; 3]%Z) 0 = true) /\
+  map (fun ij => zentry T (fst ij) (snd ij)) [(0, 0); (0, 2); (1, 1); (1, 0); (4, 4); (4, 0)]%Z = [8; 5; 7; 0; 20; -2]%Z /\
+  map (fun ij => asm_spec g Ke (Some [1%Z]) 7%Z [(0, 2, 5)%Z] [2; 3]%Z (fst ij) (snd ij))
+      [(0, 0); (0, 2); (1, 1); (1, 0); (4, 4); (4, 0)]%Z = [8; 5; 7; 0; 20; -2]%Z.
+Proof. vm_compute. repeat split; reflexivity. Qed.
